@@ -150,8 +150,8 @@ func (m *c08Mon) After(w *world.World, op world.Op, res world.Res, pre interface
 		if ok && old != string(c.Bytes) {
 			out = append(out, explore.Finding{Sig: "C08|same-name-different-bytes", What: "the same name was written with different bytes", Detail: c.Name})
 		}
-		if cfg.MarshalNL {
-			continue // a user marshaler with its own framing: only name == hash(bytes) and single-valuedness are judged
+		if cfg.MarshalNL || cfg.Tagged {
+			continue // a user marshaler with its own framing / element form: only name == hash(bytes) and single-valuedness are judged
 		}
 		rn, err := codec.Decode(c.Bytes)
 		if err != nil {
